@@ -145,7 +145,29 @@ def scenarios():
         "threads_same_key": ([S(1, [C(3)])], [S(1, [C(1), C(2)]), S(1, [C(1), C(2)])], [[0, 1]]),
         # ... and a third writer in another process
         "threads_and_process": ([S(1, [C(3)])], [S(1, [C(1)]), S(1, [C(1)]), S(1, [C(1)])], [[0, 1], [2]]),
+        # reduce_size with every combination of limits on an EMPTY store, next to a first caller
+        "reduce_combos_empty": ([], [S(1, reduce_combos() + [C(1)]), S(1, [C(1)])]),
+        # ... and on a store another participant empties between the listing and the stats
+        "reduce_age_vs_clear": ([S(1, [C(1), C(2)])], [S(1, [R(age_s=0), C(1)]), S(1, [{"a": "clear"}])]),
+        "reduce_age_vs_reduce0": ([S(1, [C(1), C(2)])], [S(1, [R(age_s=0, bytes_limit=0), C(1)]), S(1, [R(items_limit=0)])]),
+        "reduce_all_limits_vs_clear": ([S(1, [C(1), C(2)])],
+                                       [S(1, [R(age_s=0, bytes_limit="1K", items_limit=1)]), S(1, [{"a": "clear"}, C(2)])]),
     }
+
+
+def R(**kw):
+    d = {"a": "reduce", "evicts": None, "items_limit": None, "bytes_limit": None, "age_s": None}
+    d.update(kw)
+    return d
+
+
+def reduce_combos():
+    """every non-empty combination of the three limits (generous ones: nothing has to be evicted)"""
+    out = []
+    for m in range(1, 8):
+        out.append(R(bytes_limit="1G" if m & 1 else None, items_limit=1000 if m & 2 else None,
+                     age_s=10 ** 9 if m & 4 else None))
+    return out
 
 
 def schedules(rng, nparts, lens, budget):
@@ -265,6 +287,9 @@ def judge(prep, res):
                         "B" if sig else False))
             continue
         for a, r in zip(acts, rs):
+            if a["a"] == "reduce" and "raise" in r:
+                bad.append(("participant %d: reduce_size(bytes_limit=%s, items_limit=%s, age_limit=%ss) raised %s (%s)"
+                            % (i, a.get("bytes_limit"), a.get("items_limit"), a.get("age_s"), r["raise"], r.get("msg", "")[:120]), False))
             if a["a"] not in ("call", "shelve"):
                 continue
             if "raise" in r:
@@ -334,7 +359,7 @@ def run(ctx):
     gen_tie = base.source_order_tie(ctx)
     proofs_ok = ctx.standard_proof_stage("C11", extra_targets=["Model/FsShow.vo"])
     scs = scenarios()
-    budget = 36 if quick else 400
+    budget = 28 if quick else 400
     with cf.ThreadPoolExecutor(len(scs)) as ex:
         preps = list(ex.map(lambda n: prepare(env, n, scs[n]), list(scs)))
     jobs = []
@@ -406,7 +431,8 @@ def run(ctx):
         "distinct_nontrivial": len(nontrivial),
         "rule": "10 scenarios (call||call same key cold/warm, different keys, call||reduce_size, call||Memory.clear, "
                 "invalidating call||call, call||call||clear, reader||writer||reducer, two THREADS of one process writing one entry, "
-                "two threads + another process) x schedules: every single-switch schedule (sampled evenly when more than "
+                "two threads + another process, reduce_size with every combination of limits on an empty store, "
+                "reduce_size(age_limit / all limits) racing Memory.clear and reduce_size(items_limit=0)) x schedules: every single-switch schedule (sampled evenly when more than "
                 "the budget), random double-switch schedules, random block schedules for 3 participants. non-trivial = the executed "
                 "sequence has >= 2 switches; distinct by (scenario, executed sequence)",
         "samples": [{"scenario": owners[0][0]["name"], "schedule": owners[0][1]["actual"][:60],
